@@ -4,16 +4,81 @@ package main
 // every regime (k·min·c and k·max·c ± 1 for the shard counts in use) and on random inputs.
 import (
 	"fmt"
+	"go/ast"
+	"go/parser"
+	"go/token"
+	"os"
+	"path/filepath"
+	"strings"
 
 	"github.com/idena-network/idena-go/common"
 
 	"verifharness/internal/hx"
 )
 
+// nodeStartSequence: the calls on the node's components inside StartWithHeight, in source order.
+func nodeStartSequence() (string, error) {
+	repo := os.Getenv("VERIF_REPO")
+	if repo == "" {
+		repo = "/repo"
+	}
+	fset := token.NewFileSet()
+	f, err := parser.ParseFile(fset, filepath.Join(repo, "node/node.go"), nil, 0)
+	if err != nil {
+		return "", err
+	}
+	var calls []string
+	found := false
+	for _, d := range f.Decls {
+		fd, ok := d.(*ast.FuncDecl)
+		if !ok || fd.Name.Name != "StartWithHeight" || fd.Body == nil {
+			continue
+		}
+		found = true
+		ast.Inspect(fd.Body, func(n ast.Node) bool {
+			c, ok := n.(*ast.CallExpr)
+			if !ok {
+				return true
+			}
+			se, ok := c.Fun.(*ast.SelectorExpr)
+			if !ok {
+				return true
+			}
+			var parts []string
+			var walk func(e ast.Expr)
+			walk = func(e ast.Expr) {
+				switch x := e.(type) {
+				case *ast.SelectorExpr:
+					walk(x.X)
+					parts = append(parts, x.Sel.Name)
+				case *ast.Ident:
+					parts = append(parts, x.Name)
+				}
+			}
+			walk(se)
+			if len(parts) >= 2 && parts[0] == "node" && parts[1] != "log" && parts[1] != "config" {
+				calls = append(calls, strings.Join(parts[1:], "."))
+			}
+			return true
+		})
+	}
+	if !found {
+		return "", fmt.Errorf("StartWithHeight not found in node/node.go")
+	}
+	return strings.Join(calls, ","), nil
+}
+
 func init() {
 	hx.Register("C01shards", func(c *hx.Ctx) error {
 		c.Rep.Rule = "CalculateShardsNumber(min, max, networkSize, currentShards): the protocol constants (2400, 5000) and small / skewed (min, max) pairs; current shards 1..64 (powers of two and others); network sizes on every boundary min·c·2^j ± 1, max·c·2^j ± 1 and random; distinct = distinct input tuples"
 		c.Line("new", "ok")
+		// the start-up sequence of the node (node.StartWithHeight), re-extracted from node/node.go: the harness' chainfx.Start
+		// re-states it on an injected database; a change of the node's own sequence has to be looked at
+		seq, err := nodeStartSequence()
+		if err != nil {
+			return err
+		}
+		c.Line("fact node-start-sequence "+seq, "matches-chainfx-start")
 		try := func(mi, ma, n, cur int) {
 			if n < 0 || cur < 1 || ma < 1 || mi < 0 || n > 50000000 {
 				return // cur = 0 does not terminate in the Go code (ShardsNum() never returns 0)
